@@ -217,7 +217,7 @@ Definition be_xb_go (add rem : list nat) (rels : list rel) :
           let '(ntid, _, _, removed) := r in
           go rest (acc ++ [(tid, ntid, t_len t)]) (rr || removed)%bool
     end.
-Definition be_sh_go (stop0 : bool) : nat -> nat -> bool -> MW (nat * bool) :=
+Definition be_sh_go_clock (clock : nat -> bool) : nat -> nat -> bool -> MW (nat * bool) :=
   fix go (fuel : nat) (idx : nat) (any : bool) : MW (nat * bool) :=
     match fuel with
     | O => ret (idx, any)
@@ -239,9 +239,10 @@ Definition be_sh_go (stop0 : bool) : nat -> nat -> bool -> MW (nat * bool) :=
                      cache_remove_table idx ;;;
                      ret true
                    else ret a1) ;;
-        if (any1 && stop0)%bool then ret (idx, any1)
+        if (any1 && clock idx)%bool then ret (idx, any1)
         else match f with O => ret (idx, any1) | _ => go f (S idx) any1 end
     end.
+Definition be_sh_go (stop0 : bool) : nat -> nat -> bool -> MW (nat * bool) := be_sh_go_clock (fun _ => stop0).
 Definition be_drain_go (debug : bool) (qi : nat) : nat -> list ent -> MW (list ent) :=
   fix go (fuel : nat) (acc : list ent) : MW (list ent) :=
     match fuel with
@@ -631,16 +632,21 @@ Proof. intros. unfold arch_reset. be_kq_tac. Qed.
 #[export] Hint Resolve be_kq_w_set_relations_batch be_kq_arch_reset : be_kq.
 Lemma be_kq_w_reset : forall Qv, be_kq Qv w_reset.
 Proof. intros. unfold w_reset. be_kq_tac. Qed.
-Lemma be_kq_sh_go : forall Qv stop0 fuel idx any, be_kq Qv (be_sh_go stop0 fuel idx any).
+Lemma be_kq_sh_go_clock : forall Qv clock fuel idx any, be_kq Qv (be_sh_go_clock clock fuel idx any).
 Proof.
-  intros Qv stop0 fuel. induction fuel as [|fu IH]; intros idx any; unfold be_sh_go; fold (be_sh_go stop0); [be_kq_tac|].
+  intros Qv clock fuel. induction fuel as [|fu IH]; intros idx any; unfold be_sh_go_clock; fold (be_sh_go_clock clock); [be_kq_tac|].
   be_kq_step; [be_kq_tac|]. be_kq_step. be_kq_step; [be_kq_tac|].
   match goal with |- be_kq _ (if ?b then _ else _) => destruct b; [be_kq_tac|] end. destruct fu; [be_kq_tac | apply IH].
 Qed.
-#[export] Hint Resolve be_kq_sh_go : be_kq.
+Lemma be_kq_sh_go : forall Qv stop0 fuel idx any, be_kq Qv (be_sh_go stop0 fuel idx any).
+Proof. intros Qv stop0 fuel idx any. exact (be_kq_sh_go_clock Qv (fun _ => stop0) fuel idx any). Qed.
+#[export] Hint Resolve be_kq_sh_go_clock be_kq_sh_go : be_kq.
+(** Shrink under every clock (every time budget) leaves the queries alone. *)
+Lemma be_kq_w_shrink_timed : forall Qv clock, be_kq Qv (w_shrink_timed clock).
+Proof. intros. unfold w_shrink_timed, w_shrink_clock. fold (be_sh_go_clock clock). be_kq_tac. Qed.
 Lemma be_kq_w_shrink : forall Qv stop0, be_kq Qv (w_shrink stop0).
-Proof. intros. unfold w_shrink, w_shrink_core. fold (be_sh_go stop0). be_kq_tac. Qed.
-#[export] Hint Resolve be_kq_w_reset be_kq_w_shrink : be_kq.
+Proof. intros Qv stop0. exact (be_kq_w_shrink_timed Qv (fun _ => stop0)). Qed.
+#[export] Hint Resolve be_kq_w_reset be_kq_w_shrink_timed be_kq_w_shrink : be_kq.
 
 Lemma be_kq_resolveH : forall Qv h, be_kq Qv (resolveH h).
 Proof. intros. unfold resolveH. be_kq_tac. Qed.
@@ -906,6 +912,7 @@ Qed.
 
 Lemma be_step_op_QueryAll : forall d f hrels, step_op d (OQueryAll f hrels) =
   (rels <- resolveR hrels ;;
+   rels <- resolve_relidx f rels ;;
    qi <- query_open f rels ;;
    cnt <- query_count qi ;;
    es <- be_drain_go d qi (S cnt) [] ;;
@@ -923,11 +930,13 @@ Proof.
   - destruct o; try discriminate Hq; [rewrite !be_step_op_QueryAll | cbn [step_op] ..].
     + (* QueryAll *)
       apply be_simF_bind; [be_sim_kq | intros ?].
+      apply be_simF_bind; [apply be_simF_ro, readonly_resolve_relidx | intros ?].
       apply be_simF_bind; [apply be_simF_same, be_ok_open | intros ?].
       apply be_simF_bind; [apply be_simF_ro; intros s; apply query_count_readonly | intros ?].
       apply be_simF_bind; [apply be_sim_drain | intros ?].
       apply be_simF_bind; [apply be_simF_same, be_ok_close | intros ?]. apply be_simF_ret.
     + apply be_simF_bind; [be_sim_kq | intros ?].
+      apply be_simF_bind; [apply be_simF_ro, readonly_resolve_relidx | intros ?].
       apply be_simF_bind; [apply be_simF_same, be_ok_open | intros ?]. apply be_simF_ret.
     + apply be_simF_bind; [apply be_sim_next | intros ?]. apply be_simF_ret.
     + apply be_simF_bind; [apply be_simF_same, be_ok_close | intros ?]. apply be_simF_ret.
@@ -1729,6 +1738,17 @@ Lemma be_hom_to_relations : forall m rels, be_hom eq (to_relations m rels) (to_r
 Proof. intros. unfold to_relations. be_hom_tac. Qed.
 #[export] Hint Resolve be_hom_getF be_hom_to_relations : be_hom.
 
+Lemma be_hom_resolve_relidx : forall fi rels, be_hom eq (resolve_relidx fi rels) (resolve_relidx fi rels).
+Proof.
+  intros fi rels. unfold resolve_relidx. destruct (no_relidx rels); [apply be_hom_ret; reflexivity|].
+  eapply be_hom_bind; [apply be_hom_getF|]. intros f1 f2 Hf. cbv beta in Hf. subst f1.
+  change (f_unsafe (be_Tf f2)) with (f_unsafe f2). change (f_ids (be_Tf f2)) with (f_ids f2).
+  destruct (f_unsafe f2); [apply be_hom_fail|].
+  apply be_hom_mapM; [reflexivity|]. intros r _. destruct (Nat.ltb (fst r) 1000); [apply be_hom_ret; reflexivity|].
+  eapply be_hom_bind; [apply be_hom_of_opt; reflexivity|]. intros c1 c2 Hc. cbv beta in Hc. subst c1. apply be_hom_ret. reflexivity.
+Qed.
+#[export] Hint Resolve be_hom_resolve_relidx : be_hom.
+
 Lemma be_hom_ut_go : forall f rels l acc, Forall (fun a => be_small (a_mask a)) l ->
   be_hom eq (be_ut_go (be_Tf f) rels l acc) (be_ut_go f rels l acc).
 Proof.
@@ -1820,15 +1840,21 @@ Proof. intros. unfold arch_reset. be_hom_tac. Qed.
 #[export] Hint Resolve be_hom_w_set_relations_batch be_hom_arch_reset : be_hom.
 Lemma be_hom_w_reset : be_hom eq w_reset w_reset.
 Proof. unfold w_reset. be_hom_tac. Qed.
-Lemma be_hom_sh_go : forall stop0 fuel idx any, be_hom eq (be_sh_go stop0 fuel idx any) (be_sh_go stop0 fuel idx any).
+Lemma be_hom_sh_go_clock : forall clock fuel idx any,
+  be_hom eq (be_sh_go_clock clock fuel idx any) (be_sh_go_clock clock fuel idx any).
 Proof.
-  intros stop0 fuel. induction fuel as [|fu IH]; intros idx any; unfold be_sh_go; fold (be_sh_go stop0); [be_hom_tac|].
+  intros clock fuel. induction fuel as [|fu IH]; intros idx any; unfold be_sh_go_clock; fold (be_sh_go_clock clock); [be_hom_tac|].
   be_hom_tac; try apply IH.
 Qed.
-#[export] Hint Resolve be_hom_sh_go : be_hom.
+Lemma be_hom_sh_go : forall stop0 fuel idx any, be_hom eq (be_sh_go stop0 fuel idx any) (be_sh_go stop0 fuel idx any).
+Proof. intros stop0 fuel idx any. exact (be_hom_sh_go_clock (fun _ => stop0) fuel idx any). Qed.
+#[export] Hint Resolve be_hom_sh_go_clock be_hom_sh_go : be_hom.
+(** Shrink under every clock (every time budget) behaves identically in the 64-bit and the wide-mask build. *)
+Lemma be_hom_w_shrink_timed : forall clock, be_hom eq (w_shrink_timed clock) (w_shrink_timed clock).
+Proof. intros. unfold w_shrink_timed, w_shrink_clock. fold (be_sh_go_clock clock). be_hom_tac. Qed.
 Lemma be_hom_w_shrink : forall stop0, be_hom eq (w_shrink stop0) (w_shrink stop0).
-Proof. intros. unfold w_shrink, w_shrink_core. fold (be_sh_go stop0). be_hom_tac. Qed.
-#[export] Hint Resolve be_hom_w_reset be_hom_w_shrink : be_hom.
+Proof. intros stop0. exact (be_hom_w_shrink_timed (fun _ => stop0)). Qed.
+#[export] Hint Resolve be_hom_w_reset be_hom_w_shrink_timed be_hom_w_shrink : be_hom.
 
 Lemma be_hom_getQ : forall qi, be_hom eq (getQ qi) (getQ qi).
 Proof. intros. unfold getQ. be_hom_tac. Qed.
